@@ -101,14 +101,23 @@ CHECKS["C14"] = dict(
 )
 CHECKS["C17"] = dict(
     category="proof",
-    text=("Coq-proven certificate checker mesh_cert (Checker/TetMesh.v: all signed volumes of one sign and non-zero, exact sum) with soundness "
-          "over the reals (Props/C17.v), evaluated on every mesh the factories return; literal vertex/tetrahedron tables are re-extracted from the "
-          "source on every run (Gen/TetTables.v) and the binary64 run of Model/TetMesh.v is compared bit-exactly with the implementation; an exact "
-          "rational oracle verifies hull volume (scipy facets as untrusted witness), vertices inside the analytic shape, potentials and the mesh "
-          "helpers. Universal theorems over all sizes for box/cube/cylinder are in progress (partial)."),
+    text=("Proved in Coq (Props/C17.v, 25 theorems) about the Gallina model Model/TetMesh*.v whose tables (Gen/TetTables.v) are re-extracted from "
+          "the source by a fail-closed ast reader on every run - FOR ALL INPUTS: (a) make_tetrahedral_box (all sizes > 0, all 7 reachable topology "
+          "classes) and cube: every element has non-zero volume of the factory's orientation sign, volumes sum to sx*sy*sz, all vertices in the "
+          "box, NO TWO ELEMENTS OVERLAP, potential = distance to the boundary (0 on corners, min half size on medial vertices) ('exact tiling' = "
+          "disjoint + contained + equal volume; the measure-theoretic step 'hence no gaps' is not formalised); (b) icosphere, EVERY order: closed "
+          "consistently oriented surface, cache key injective, vertices on the sphere; (c) cylinder, ANY n, arbitrary counter-clockwise rim "
+          "points, all three classes: elements positively oriented, volumes sum to len * polygon area, no two elements overlap, potentials = "
+          "inradius; capsule, any n and any number of cap circles: elements positive with explicit volume sum; (d) helpers: volumes, tightest "
+          "AABBs, centre of mass = their definitions; RigidBody: after ANY sequence of reads / express_in the cached com / aabbs / "
+          "tetrahedra_points / aabb() equal a direct computation on the current vertices; mesh_cert is sound. PER GENERATED INPUT only: volume "
+          "sum = convex-hull volume for sphere/ellipsoid, libm cos/sin values, the rim-point hypotheses of the cylinder/capsule theorems, RigidBody "
+          "read/express_in histories. Tie, every run: bit-exact binary64 run of the model vs the implementation for EVERY factory (vertices, "
+          "elements, potentials), helpers, RigidBody twins and histories, class boundaries hit exactly; line coverage of the implementation "
+          "measured (328/328, 12/12, 51/60)."),
     design_ref="DESIGN.md section 5, C17",
-    technique="Coq-proven mesh certificate checker + tables regenerated from source + bit-exact model correspondence + exact rational oracle",
-    note=TB + "; harness/tables_c17.py (ast reader) and harness/c17_oracle.py are trusted; scipy ConvexHull facets are an untrusted witness verified exactly",
+    technique="Coq proofs about a Gallina model (polynomial reflection, induction over sectors / subdivision order) with tables re-extracted from the source + bit-exact binary64 correspondence + proven certificate checker",
+    note=TB + "; harness/tables_c17.py (ast reader) and harness/c17_oracle.py are trusted; numpy cos/sin evaluated by the harness for the model's trig inputs; scipy ConvexHull only as untrusted witness",
 )
 
 CHECKS["C02"] = dict(
